@@ -115,6 +115,16 @@ theorem minimal_push_unique (d : Bytes) (op op' : Nat) (hl : d.length ≤ 65535)
 
 example : checkMinimalPush 2 [7, 7] = true := by decide
 
+/-! ### script numbers -/
+
+/-- `CScriptNum` serialisation round-trips and is minimal for every value of 64-bit magnitude (script
+arithmetic only ever produces values below 2^32 in magnitude). -/
+theorem scriptnum_roundtrip (n : Int) (hn : n.natAbs < 2 ^ 63) :
+    numValue (encodeNum n) = n ∧ isMinimalNum (encodeNum n) = true :=
+  Lemmas.scriptnum_roundtrip n hn
+
+example : numValue (encodeNum (-2147483648)) = -2147483648 := (scriptnum_roundtrip _ (by decide)).1
+
 /-! ### soft-fork monotonicity -/
 
 /-- CHECKLOCKTIMEVERIFY is a soft fork: every spend that verifies with the flag verifies without it. -/
@@ -128,5 +138,11 @@ theorem softfork_monotone_csv (fl : Flags) (chk : Checker) (scriptSig scriptPubK
     (wit : List Bytes) (h : verifyScript { fl with csv := true } chk scriptSig scriptPubKey wit = .ok ()) :
     verifyScript { fl with csv := false } chk scriptSig scriptPubKey wit = .ok () :=
   Lemmas.verifyScript_mono Lemmas.csv_tightening fl chk scriptSig scriptPubKey wit () h
+
+/-- NULLDUMMY (BIP147) is a soft fork. -/
+theorem softfork_monotone_nulldummy (fl : Flags) (chk : Checker) (scriptSig scriptPubKey : Bytes)
+    (wit : List Bytes) (h : verifyScript { fl with nulldummy := true } chk scriptSig scriptPubKey wit = .ok ()) :
+    verifyScript { fl with nulldummy := false } chk scriptSig scriptPubKey wit = .ok () :=
+  Lemmas.verifyScript_mono Lemmas.nulldummy_tightening fl chk scriptSig scriptPubKey wit () h
 
 end BV.C06
